@@ -1,6 +1,7 @@
 package main
 
 import (
+	"os"
 	"fmt"
 	"go/token"
 	"go/types"
@@ -383,11 +384,18 @@ func checkGetAll(w *World, r *Report, rule string, roots []*ssa.Function) {
 	cg := w.CG()
 	var fns []*ssa.Function
 	for fn := range cg.Reach(roots) {
-		if w.isProdFunc(fn) && strings.Contains(funcName(fn), "/keeper.") {
+		if w.isProdFunc(fn) && strings.HasSuffix(pkgPathOf(fn), "/keeper") {
 			fns = append(fns, fn)
 		}
 	}
 	sort.Slice(fns, func(i, j int) bool { return fns[i].String() < fns[j].String() })
+	if os.Getenv("C4E_DEBUG2") != "" {
+		for fn := range cg.Reach(roots) {
+			if strings.Contains(fn.Name(), "iterateProto") {
+				fmt.Println("GETALL", fn.String(), w.isProdFunc(fn), pkgPathOf(fn), len(fn.Blocks), len(iterLoops(fn)))
+			}
+		}
+	}
 	for _, fn := range fns {
 		for _, l := range iterLoops(fn) {
 			collects := func(b *ssa.BasicBlock) bool {
@@ -625,4 +633,24 @@ func checkExportVerbatim(w *World, r *Report, rule string, exports []*ssa.Functi
 		}
 	}
 	r.Check(n >= 1, rule, "in-place modifications on the export trees enumerated", "", fmt.Sprintf("%d (the reviewed blanking of the burn state's account)", n), "the enumeration found nothing: the rule no longer sees the export code")
+}
+
+// pkgPathOf: the package a function belongs to (for function literals their parent's, for instantiations of generic
+// functions their origin's).
+func pkgPathOf(f *ssa.Function) string {
+	for f != nil {
+		if f.Pkg != nil {
+			return f.Pkg.Pkg.Path()
+		}
+		if f.Parent() != nil {
+			f = f.Parent()
+			continue
+		}
+		if f.Origin() != nil && f.Origin() != f {
+			f = f.Origin()
+			continue
+		}
+		break
+	}
+	return ""
 }
